@@ -76,7 +76,10 @@ C12Match(items, ty) ==
          [] it.t = "o" ->
               LET n == Len(it.ks)
                   k == C12Min(n, Len(ty))
+              \* all keys of the group down before any goes up; the keys typed before the group are up when it
+              \* begins (whether a key that is still down counts as part of the chord is not documented: no claim)
               IN IF /\ \A i \in 1..k : ty[i].c \in StSetOf(it.ks) /\ ty[i].mm = 0 /\ ty[i].h >= i - 1
+                    /\ ty[1].h = 0
                     /\ Cardinality({ty[i].c : i \in 1..k}) = k
                  THEN IF Len(ty) < n THEN "prefix" ELSE C12Match(Tail(items), SubSeq(ty, n + 1, Len(ty)))
                  ELSE "no"
@@ -98,6 +101,7 @@ MonInit(p) ==
       ttl |-> 0,
       ty |-> <<>>,               \* typed since the mode was entered
       owed |-> {},               \* definitions one of whose virtual keys must now be tapped once
+      tapped |-> {},             \* output keys of the virtual keys tapped since the mode was last entered (diagnostics)
       recent |-> <<>>,           \* soft zone only: the last key presses seen (codes), for S2
       err |-> ""]
 
@@ -110,6 +114,7 @@ KeySet(m) == SeqToSet(m.p.keys)
 \* leaving the sharp zone: from here on only S2 is judged, on the key presses seen (those typed so far, then
 \* every further press); a virtual key that is already due stays due
 C12GoSoft(m) == [m EXCEPT !.sync = FALSE, !.pend = <<>>, !.act = FALSE, !.ty = <<>>, !.ttl = 0, !.held = {}, !.stale = {},
+                          !.tapped = {},
                           !.owed = IF C12S2On(m) THEN @ ELSE {},
                           !.recent = IF ~C12S2On(m) THEN <<>> ELSE
                                      LET a == [i \in DOMAIN m.ty |-> m.ty[i].c] \o
@@ -135,7 +140,7 @@ MonIn(m, r) ==
 \* ---- the reference step for one processed event -------------------------------------------
 \* result: [m, expK (typed-key downs expected on this tick, in order), expB (backspace taps),
 \*          expV ({} = no virtual key may go down; else exactly one down of a key in the set), soft]
-C12Enter(m) == [m EXCEPT !.act = TRUE, !.ty = <<>>, !.ttl = m.p.T]
+C12Enter(m) == [m EXCEPT !.act = TRUE, !.ty = <<>>, !.ttl = m.p.T, !.tapped = {}]
 C12Leave(m) == [m EXCEPT !.act = FALSE, !.ty = <<>>, !.ttl = 0]
 TyCodes(m) == [i \in DOMAIN m.ty |-> m.ty[i].c]
 HiddenMode(m) == m.p.mode # "visible-backspaced"
@@ -225,7 +230,7 @@ MonTick(m, out, idle, cb) ==
                     [] ev[1] = "vd" -> [m |-> m1, expK |-> <<>>, expB |-> 0, soft |-> FALSE, vk |-> TRUE]
                     [] OTHER -> [m |-> m1, expK |-> <<>>, expB |-> 0, soft |-> FALSE, vk |-> FALSE]
              \* 2. the timeout: T ticks after the last typed key (or the leader)
-             m2 == st.m
+             m2 == IF ev[1] \in {"d", "u"} THEN [st.m EXCEPT !.tapped = {}] ELSE st.m
              expire == m2.act /\ m2.ttl <= 1
              flush == IF expire /\ m2.p.mode = "hidden-delay-type" THEN TyCodes(m2) ELSE <<>>
              m3 == IF expire THEN C12Leave(m2)
@@ -242,7 +247,7 @@ MonTick(m, out, idle, cb) ==
             ELSE IF st.vk /\ (Len(vdowns) > 1 \/ \A d \in m2.owed : m2.p.defs[d].out # vdowns[1])
             THEN Fail(m3, "C12 S1: the virtual key of another sequence was tapped, or it was tapped more than once")
             ELSE IF ~st.vk /\ Len(vdowns) > 0
-            THEN Fail(m3, IF m2.owed # {} \/ ev[1] = "vu"
+            THEN Fail(m3, IF m2.owed # {} \/ ev[1] = "vu" \/ vdowns[1] \in m1.tapped
                           THEN "C12 S1: the virtual key was tapped more than once or at the wrong time"
                           ELSE "C12 S3: a virtual key was tapped although the sequence mode had ended without a match")
             ELSE IF kdowns # expK
@@ -257,7 +262,7 @@ MonTick(m, out, idle, cb) ==
             THEN Fail(m3, "C12 S4: visible-backspaced must send exactly one backspace per non-modifier typed key on completion")
             ELSE IF idle /\ m3.act
             THEN Fail(m3, "C12 S3: kanata reports idle while the sequence mode should still be on (mode left early)")
-            ELSE LET m4 == IF st.vk THEN [m3 EXCEPT !.owed = {}] ELSE m3 IN
+            ELSE LET m4 == IF st.vk THEN [m3 EXCEPT !.owed = {}, !.tapped = @ \cup {vdowns[1]}] ELSE m3 IN
                  m4
 
 RECURSIVE MonSilent(_, _, _, _)
